@@ -138,7 +138,25 @@ class BuiltinMixin:
                         return f(self, x, o, [y], {}, None)
         return NotImplemented
 
+    def iter_map_view(self, o, node):
+        mref = o.fields['map']
+        m = self.heap.get(mref)
+        keys = getattr(m, 'explicit_keys', None)
+        if keys is None:
+            raise Unsupported('iteration over a symbolic map of unknown size (needs a loop rule or a contract)')
+        kind = o.fields['kind']
+        for k in list(keys):
+            v = View(mref.oid, zint(k), '', m.elem_cls) if m.elem_cls is not None else None
+            if kind == 'keys':
+                yield k
+            elif kind == 'values':
+                yield v
+            else:
+                yield (k, v)
+
     def extern_iter_obj(self, ref, o, node):
+        if o.cls == 'map-iter':
+            return self.iter_map_view(o, node)
         f = EXTERN_METHODS.get((o.cls if not isinstance(o.cls, extract.ClassInfo) else None, '__iter__'))
         if f:
             return f(self, ref, o, [], {}, node)
@@ -381,6 +399,9 @@ class BuiltinMixin:
         if not args:
             return self.heap.alloc(ListObj([]))
         v = args[0]
+        from . import hdrmodel
+        if hdrmodel.is_hdr(self, v):
+            return hdrmodel.list_of_hdr(self, v, node)
         if isinstance(v, Ref) and isinstance(self.heap.get(v), ListObj) and self.heap.get(v).tail is not None:
             return self.heap.alloc(self.heap.get(v).copy())
         return self.heap.alloc(ListObj(list(self.iter_values(v, node))))
@@ -397,8 +418,25 @@ class BuiltinMixin:
             return tuple(range(*vals))
         return self.symbolic_range(vals, node)
 
+    RANGE_UNROLL = 3
+
     def symbolic_range(self, vals, node):
-        raise Unsupported('range with symbolic bounds')
+        """range(0, L, m) with symbolic L, m > 0: exact unrolling up to
+        RANGE_UNROLL steps, beyond that the path is BOUNDED OUT (reported)."""
+        if len(vals) != 3 or not (isinstance(vals[0], int) and vals[0] == 0):
+            raise Unsupported('range with symbolic bounds')
+        L, m = zint(vals[1]), zint(vals[2])
+        if not self.branch(m > 0, 'range-step-positive'):
+            raise Unsupported('range with non-positive symbolic step')
+        K = self.RANGE_UNROLL
+        conds = [L <= 0] + [z3.And((k - 1) * m < L, L <= k * m) for k in range(1, K + 1)] + [L > K * m]
+        c = self.choose(conds, 'range-steps', names=[str(i) for i in range(K + 1)] + ['>%d' % K])
+        if c == K + 1:
+            self.bounds_hit.add('range(0, len, step) unrolled to %d steps at line %s' % (K, getattr(node, 'lineno', '?')))
+            raise BoundedOut('range unrolling bound %d' % K)
+        self.bounds_used.add('range(0, len, step) unrolled exactly up to %d steps (line %s of %s)'
+                             % (K, getattr(node, 'lineno', '?'), self.frames[-1].fi.qualname if self.frames[-1].fi else '?'))
+        return tuple(z3.simplify(i * m) if i else 0 for i in range(c))
 
     def bi_set(self, args, kwargs, node):
         if not args:
